@@ -121,18 +121,23 @@ var fieldPool = []fieldDef{{"s1", tSum}, {"s2", tSum}, {"mn", tMin}, {"mx", tMax
 // wideHosts: host values of a wide data set (> the default limit 20 of a query).
 const wideHosts = 30
 
-func genDataset(t *rapid.T) *dataset { return genDatasetWith(t, false) }
+func genDataset(t *rapid.T) *dataset { return genDatasetWith(t, dataOpt{}) }
+
+// dataOpt: ties = data made for `order by` (see genDatasetWith); skew = data made for fields that a storage node
+// never saw (skew_test.go): the first metric has >= 2 tag keys (complete tag sets), >= 2 fields and most of 6-12 series.
+type dataOpt struct{ ties, skew bool }
 
 // genDatasetWith: with ties set, the data set is made for `order by`: at least 5 series that mostly report every
 // field, and (3 of 4 data sets) values from {-1, 0, 1, 2, 3}, so that the sums / minima / maxima / counts / first and
 // last values of different groups are often equal and a later order by item has to decide.
-func genDatasetWith(t *rapid.T, ties bool) *dataset {
+func genDatasetWith(t *rapid.T, opt dataOpt) *dataset {
+	ties, skew := opt.ties, opt.skew
 	d := &dataset{}
 	smallValues := ties && rapid.IntRange(0, 3).Draw(t, "smallValues") > 0
 	// 1 of 8 data sets is wide (see dataset.Wide)
-	d.Wide = rapid.IntRange(0, 7).Draw(t, "wideDataset") == 0
+	d.Wide = rapid.IntRange(0, 7).Draw(t, "wideDataset") == 0 && !skew
 	nMetrics := rapid.SampledFrom([]int{1, 1, 1, 2, 2, 3}).Draw(t, "nMetrics")
-	if d.Wide && nMetrics > 2 {
+	if (d.Wide || skew) && nMetrics > 2 {
 		nMetrics = 2
 	}
 	for m := 0; m < nMetrics; m++ {
@@ -144,18 +149,29 @@ func genDatasetWith(t *rapid.T, ties bool) *dataset {
 		}
 		// half of the metrics have series with different tag key sets (legal: a series is its tag set)
 		md.Ragged = len(md.TagKeys) > 1 && rapid.Bool().Draw(t, "raggedTags")
+		if skew && m == 0 {
+			if len(md.TagKeys) == 1 {
+				md.TagKeys = []string{"host", "zone"}
+			}
+			md.Ragged = false
+		}
 		if d.Wide && m == 0 && md.Ragged {
 			// mostly complete tag sets, so that most hosts form a group
 			md.Ragged = rapid.IntRange(0, 3).Draw(t, "wideRagged") == 0
 		}
 		nf := rapid.IntRange(1, 4).Draw(t, "nFields")
+		if skew && m == 0 && nf < 2 {
+			nf = 2
+		}
 		perm := rapid.Permutation(fieldPool).Draw(t, "fieldPick")
 		md.Fields = append(md.Fields, perm[:nf]...)
 		sort.Slice(md.Fields, func(i, j int) bool { return md.Fields[i].Name < md.Fields[j].Name })
 		d.Metrics = append(d.Metrics, md)
 	}
 	nSeries := 0
-	if ties {
+	if skew {
+		nSeries = rapid.IntRange(6, 12).Draw(t, "nSeries")
+	} else if ties {
 		nSeries = rapid.IntRange(5, 12).Draw(t, "nSeries")
 	} else {
 		nSeries = rapid.IntRange(nMetrics+1, 12).Draw(t, "nSeries")
@@ -176,6 +192,9 @@ func genDatasetWith(t *rapid.T, ties bool) *dataset {
 			}
 		} else if s >= nMetrics {
 			m = rapid.IntRange(0, nMetrics-1).Draw(t, "seriesMetric")
+			if skew && rapid.IntRange(0, 3).Draw(t, "skewFirstMetric") > 0 {
+				m = 0
+			}
 		}
 		wide := d.Wide && m == 0
 		md := d.Metrics[m]
@@ -614,17 +633,33 @@ func genCondLeaf(t *rapid.T, d *dataset, mi int, md metricDef) *cond {
 }
 
 func genQuery(t *rapid.T, d *dataset, group string) *querySpec {
-	return genQueryWith(t, d, group, false)
+	return genQueryWith(t, d, group, modeDefault)
 }
+
+type queryMode int
+
+const (
+	modeDefault queryMode = iota
+	// modeOrder: the statement of TestOrderByLayoutIndependence (a select list, mostly grouped by tags over the
+	// whole time range, always an order by clause and a limit drawn around the number of groups)
+	modeOrder
+	// modeSkew: the statement of TestGroupByFieldsANodeNeverSaw (mostly `select *` from the first metric, grouped by
+	// tags, mostly no condition and the whole time range)
+	modeSkew
+)
 
 // genQueryWith: orderMode = the statement of TestOrderByLayoutIndependence: a select list (no *), mostly grouped by
 // tags over the whole time range, always with an order by clause and a limit drawn around the number of groups.
 // Otherwise 1 of 5 grouped statements with a select list gets an order by clause (its limit clause stays as drawn).
-func genQueryWith(t *rapid.T, d *dataset, group string, orderMode bool) *querySpec {
+func genQueryWith(t *rapid.T, d *dataset, group string, mode queryMode) *querySpec {
+	orderMode, skew := mode == modeOrder, mode == modeSkew
 	q := &querySpec{}
 	q.Metric = rapid.IntRange(0, len(d.Metrics)-1).Draw(t, "qMetric")
 	if rapid.IntRange(0, 19).Draw(t, "unknownMetric") == 0 {
 		q.Metric = -1
+	}
+	if skew && rapid.IntRange(0, 4).Draw(t, "skewFirstMetric") > 0 {
+		q.Metric = 0
 	}
 	var md metricDef
 	if q.Metric >= 0 {
@@ -639,6 +674,9 @@ func genQueryWith(t *rapid.T, d *dataset, group string, orderMode bool) *querySp
 	}
 	ragged := q.Metric >= 0 && len(d.commonFields(q.Metric)) < len(md.Fields)
 	q.All = rapid.IntRange(0, 4).Draw(t, "selectAll") == 0 && !orderMode
+	if skew && q.Metric >= 0 && rapid.IntRange(0, 3).Draw(t, "skewSelectAll") > 0 {
+		q.All = true
+	}
 	if q.All && ragged && ev.Known(sigSelectStar) {
 		q.All = false
 		ev.Class(group, "excluded_known", 1)
@@ -684,6 +722,9 @@ func genQueryWith(t *rapid.T, d *dataset, group string, orderMode bool) *querySp
 	default:
 		q.Cond = &cond{Op: rapid.SampledFrom([]string{"and", "or"}).Draw(t, "condBin"), L: genCondLeaf(t, d, q.Metric, md), R: genCondLeaf(t, d, q.Metric, md)}
 	}
+	if skew && rapid.IntRange(0, 2).Draw(t, "skewNoCond") > 0 {
+		q.Cond = nil
+	}
 	if q.Cond != nil {
 		q.CondText = q.Cond.text()
 	}
@@ -706,12 +747,12 @@ func genQueryWith(t *rapid.T, d *dataset, group string, orderMode bool) *querySp
 	default: // nothing was written there
 		q.StartS, q.EndS = -3600, -3000
 	}
-	if orderMode && rapid.IntRange(0, 2).Draw(t, "orderWholeRange") > 0 {
+	if (orderMode || skew) && rapid.IntRange(0, 2).Draw(t, "orderWholeRange") > 0 {
 		q.StartS, q.EndS = -60, 420
 	}
 	q.Interval = rapid.SampledFrom([]int{0, 0, 10, 20, 30, 60, 300}).Draw(t, "interval")
 	groupKind := rapid.IntRange(0, 3).Draw(t, "groupKind")
-	if orderMode && groupKind == 0 && rapid.IntRange(0, 9).Draw(t, "orderUngrouped") > 0 {
+	if (orderMode || skew) && groupKind == 0 && rapid.IntRange(0, 9).Draw(t, "orderUngrouped") > 0 {
 		groupKind = 1
 	}
 	switch groupKind {
